@@ -94,18 +94,19 @@ type victimTracer struct {
 	units  []unitInfo
 	bcasts []string // kind of every accepted broadcast, in order
 
-	plan                   []crashPoint // crashes still to inject, in order
-	armedRPC               int          // accepted-broadcast number at which to die (0 = none)
-	armedAt                int64        // db: relative round-trip number of the armed fault
-	crashes                []string     // what happened
-	zombie                 int          // round trips the dying process still made after the fault fired
-	polys                  []string     // distinct stored polynomials seen (hex of gammas)
-	polyEvals              map[int]string
+	plan                   []crashPoint        // crashes still to inject, in order
+	armedRPC               int                 // accepted-broadcast number at which to die (0 = none)
+	armedAt                int64               // db: relative round-trip number of the armed fault
+	crashes                []string            // what happened
+	zombie                 int                 // round trips the dying process still made after the fault fired
+	polys                  map[uint64][]string // per eon: distinct stored polynomials seen (hex of gammas)
+	polyEvals              map[uint64]map[int]string
 	problems               []string // oracle (3) violations noticed while the run goes on
 	crashOpen              []int64
 	planLeft               int // crash points not reached when the scheduled part of the run ended
 	blockSeenLost          bool
 	sawSameDesc            bool // at some broadcast the outbox held two rows with the same description
+	crashedBeforeRetry     bool // some crash happened after the batch-config block and before the retry's EonStarted, no batch config started
 	crashedEvalsWaiting    bool // some crash happened while evaluations of the victim waited in poly_evals for a receiver's check-in
 	crashedMidRange        bool // some crash fell between the block transactions of one multi-block sync range
 	crashedMidRangeDKG     bool // ... and a block already committed in that range changes the DKG state
@@ -225,7 +226,7 @@ func (vt *victimTracer) pendingDKG() bool {
 		if pc := tx.Msg.GetPolyCommitment(); pc != nil && pc.Eon == r.eon {
 			commits++
 		}
-		if pe := tx.Msg.GetPolyEval(); pe != nil && pe.Eon == r.eon {
+		if pe := tx.Msg.GetPolyEval(); pe != nil {
 			for _, rc := range pe.Receivers {
 				if common.BytesToAddress(rc) == n.Addr {
 					evals++
@@ -280,7 +281,7 @@ func (vt *victimTracer) instrument() {
 // step replaces Node.step for the victim.
 func (vt *victimTracer) step(r *Run, n *Node, budget int) error {
 	if n.Pos != vt.victim {
-		return n.step(r.ctx, r.l1, budget)
+		return n.step(r.ctx, r.curL1(), budget)
 	}
 	n.Client.SendBudget = budget
 	open := r.chain.OpenHeight()
@@ -311,7 +312,7 @@ func (vt *victimTracer) step(r *Run, n *Node, budget int) error {
 	defer func() { n.Client.AfterDeliver = prevAfter; n.Client.Trace = nil }()
 
 	pendingBefore := vt.pendingDKG()
-	parts := n.stepParts(r.ctx, r.l1)
+	parts := n.stepParts(r.ctx, r.curL1())
 	bounds := []int64{vt.rel()}
 	var stepErr error
 	crashed := false
@@ -420,6 +421,17 @@ func (vt *victimTracer) step(r *Run, n *Node, budget int) error {
 		if len(n.Srv.Rows("poly_evals")) > 0 {
 			vt.crashedEvalsWaiting = true
 		}
+		if r.sc.L1Static && r.h0 != 0 && n.syncedTo() >= r.h0 && len(n.Srv.Rows("eons")) == 1 {
+			started := false
+			for _, row := range n.Srv.Rows("tendermint_batch_config") {
+				if row["started"].(bool) {
+					started = true
+				}
+			}
+			if !started {
+				vt.crashedBeforeRetry = true
+			}
+		}
 		// between the per-block transactions of a multi-block range: at least
 		// one block of this iteration's range is committed, at least one is not
 		if now, rangeEnd := n.syncedTo(), open-3; len(marks) > 0 && now > startedAt && now < rangeEnd {
@@ -457,49 +469,49 @@ func (n *Node) syncedTo() int64 {
 }
 
 // storedPolynomial reads the victim's persisted DKG state.
-func (vt *victimTracer) storedPolynomial() *shcrypto.Polynomial {
+// storedPolynomials reads the victim's persisted DKG states (per eon).
+func (vt *victimTracer) storedPolynomials() map[uint64]*shcrypto.Polynomial {
+	res := map[uint64]*shcrypto.Polynomial{}
 	for _, row := range vt.node().Srv.Rows("puredkg") {
-		if uint64(row["eon"].(int64)) != vt.r.eon || vt.r.eon == 0 {
-			continue
-		}
 		pure, err := shdb.DecodePureDKG(row["puredkg"].([]byte))
 		if err != nil {
 			vt.problems = append(vt.problems, fmt.Sprintf("stored puredkg does not decode: %v", err))
-			return nil
+			continue
 		}
-		return pure.Polynomial
+		if pure.Polynomial != nil {
+			res[uint64(row["eon"].(int64))] = pure.Polynomial
+		}
 	}
-	return nil
+	return res
 }
 
 // observeSecret: oracle (3) - whatever is on chain from the victim matches
-// the secret state in its database, and that state never changes.
+// the secret state in its database, and that state never changes (per eon).
 func (vt *victimTracer) observeSecret(where string) {
 	vt.r.observe()
-	poly := vt.storedPolynomial()
-	if poly == nil {
-		return
-	}
-	g := fmt.Sprintf("%x", poly.Gammas().Marshal())
-	if len(vt.polys) == 0 || vt.polys[len(vt.polys)-1] != g {
-		vt.polys = append(vt.polys, g)
-		if vt.polyEvals == nil {
-			vt.polyEvals = map[int]string{}
+	for eon, poly := range vt.storedPolynomials() {
+		g := fmt.Sprintf("%x", poly.Gammas().Marshal())
+		if vt.polys == nil {
+			vt.polys, vt.polyEvals = map[uint64][]string{}, map[uint64]map[int]string{}
 		}
-		for p := 0; p < vt.r.sc.N; p++ {
-			vt.polyEvals[p] = poly.EvalForKeyper(p).String()
+		if ps := vt.polys[eon]; len(ps) == 0 || ps[len(ps)-1] != g {
+			vt.polys[eon] = append(vt.polys[eon], g)
+			vt.polyEvals[eon] = map[int]string{}
+			for p := 0; p < vt.r.sc.N; p++ {
+				vt.polyEvals[eon][p] = poly.EvalForKeyper(p).String()
+			}
 		}
-	}
-	if len(vt.polys) > 1 {
-		vt.problems = append(vt.problems, fmt.Sprintf("%s: the stored polynomial changed (%d different ones so far)", where, len(vt.polys)))
-	}
-	for _, tx := range vt.r.chain.Submitted {
-		if tx.Signer != vt.node().Addr || tx.Msg == nil || tx.Msg.GetPolyCommitment() == nil || tx.Msg.GetPolyCommitment().Eon != vt.r.eon {
-			continue
+		if len(vt.polys[eon]) > 1 && len(vt.problems) < 5 {
+			vt.problems = append(vt.problems, fmt.Sprintf("%s: the stored polynomial of eon %d changed (%d different ones so far)", where, eon, len(vt.polys[eon])))
 		}
-		sent := decodeGammas(tx.Msg.GetPolyCommitment().Gammas)
-		if sent == nil || fmt.Sprintf("%x", sent.Marshal()) != g {
-			vt.problems = append(vt.problems, fmt.Sprintf("%s: commitment sent at height %d differs from the stored polynomial's", where, tx.Height))
+		for _, tx := range vt.r.chain.Submitted {
+			if tx.Signer != vt.node().Addr || tx.Msg == nil || tx.Msg.GetPolyCommitment() == nil || tx.Msg.GetPolyCommitment().Eon != eon {
+				continue
+			}
+			sent := decodeGammas(tx.Msg.GetPolyCommitment().Gammas)
+			if (sent == nil || fmt.Sprintf("%x", sent.Marshal()) != g) && len(vt.problems) < 5 {
+				vt.problems = append(vt.problems, fmt.Sprintf("%s: commitment for eon %d sent at height %d differs from the stored polynomial's", where, eon, tx.Height))
+			}
 		}
 	}
 }
@@ -549,6 +561,8 @@ type c08Result struct {
 	prefixOK               bool
 	execErr                error
 	h0, L                  int64
+	retryH                 int64 // height of the EonStarted event of a retried key generation (0: none)
+	crashedBeforeRetry     bool
 	crashedPending         bool
 	crashedAfterCommitOnly bool
 	crashedMidRange        bool
@@ -605,6 +619,19 @@ func c08Scenario(variant, victim int) Scenario {
 			sc.Lag = map[int]int{victim: 2}
 		}
 	}
+	if variant == 10 {
+		// A key generation that fails and is retried by shuttermint, on a main chain
+		// that stands at block 0 (DKGStartBlockDelta 200 lets the keypers vote for
+		// keyper set 1 anyway, no block-seen report is due, so no batch config is ever
+		// marked started): t = n = 3 and a third keyper sleeps through the dealing
+		// phase, every keyper's DKG fails, three DKGResult(false) votes make shuttermint
+		// start a new eon for the same keyper set (an EonStarted event without a
+		// BatchConfig event), which succeeds. The victim crashes somewhere between the
+		// block that brought the batch config and the retry.
+		sc.T = 3
+		sc.L1Static = true
+		sc.Stalls = []stall{{Pos: (victim + 1) % 3, From: 2, Len: 8}}
+	}
 	if variant == 7 {
 		// four keypers, two of them late (1 and 3 blocks after the eon start)
 		sc.N, sc.L, sc.Order = 4, 10, []int{0, 1, 2, 3}
@@ -653,6 +680,9 @@ func runC08(sc Scenario, victim int, plan []crashPoint, ref *c08Result, fail fai
 	r.plainSchedule = true
 	r.checkPersisted = true
 	res.execErr = r.execute()
+	if res.execErr == nil && sc.L1Static {
+		r.runToQuiescence() // the retried eon
+	}
 	nUnits, nBcasts := -1, -1
 	if res.execErr == nil {
 		// no more crashes; a few more blocks so that a victim killed in the
@@ -673,6 +703,16 @@ func runC08(sc Scenario, victim int, plan []crashPoint, ref *c08Result, fail fai
 	}
 	res.unsupported = r.unsupported()
 	res.h0, res.L = r.h0, sc.L
+	res.crashedBeforeRetry = vt.crashedBeforeRetry
+	if starts := r.eonStarts(); len(starts) > 1 {
+		// the outcome that counts is the one of the last eon (shuttermint's retry of a failed
+		// key generation): from here on the oracles look at that one
+		last := starts[len(starts)-1]
+		res.retryH = last[1]
+		r.eon, r.h0 = uint64(last[0]), last[1]
+	} else if sc.L1Static && res.execErr == nil {
+		fail("no-retry", "the failed key generation was not retried by shuttermint\n%s", r.history())
+	}
 	res.crashedPending = vt.crashedPending
 	res.crashedAfterCommitOnly = vt.crashedAfterCommitOnly
 	res.crashedMidRange, res.crashedMidRangeDKG = vt.crashedMidRange, vt.crashedMidRangeDKG
@@ -777,7 +817,7 @@ func runC08(sc Scenario, victim int, plan []crashPoint, ref *c08Result, fail fai
 					fail("secret-state-inconsistent", "eval sent to k%d does not decrypt: %v\n%s", q, err, hist())
 					continue
 				}
-				if want, ok := vt.polyEvals[q]; ok && shdb.DecodeBigint(pt).String() != want {
+				if want, ok := vt.polyEvals[pe.Eon][q]; ok && shdb.DecodeBigint(pt).String() != want {
 					fail("secret-state-inconsistent", "eval sent to k%d at height %d is not the stored polynomial's value\n%s", q, tx.Height, hist())
 				}
 			}
@@ -968,10 +1008,10 @@ func TestC08_CrashRecovery(t *testing.T) {
 	rec.AddRule(c08Rule)
 	c08Assumptions(rec)
 
-	variants := []int{3, 2, 4, 6, 8}
+	variants := []int{3, 2, 4, 6, 8, 10}
 	victims := []int{1}
 	if thorough() {
-		variants = []int{0, 1, 2, 3, 4, 5, 6, 7, 8, 9}
+		variants = []int{0, 1, 2, 3, 4, 5, 6, 7, 8, 9, 10}
 		victims = []int{0, 1, 2}
 	}
 	caseNo := 0
@@ -1049,6 +1089,20 @@ func TestC08_CrashRecovery(t *testing.T) {
 				// quick: a slice of the single points chosen by the seed (stratified over the run), all rpc points
 				stride := 7
 				for i, p := range points {
+					if variant == 10 {
+						// (every crash between the batch-config block and the retry behaves alike)
+						stride = 25
+						if thorough() {
+							stride = 3
+						}
+						if p.Kind == "db" {
+							if o := ref.units[p.K-1].Open; o < ref.h0+3 || o > ref.retryH+3 {
+								continue
+							}
+						} else if !thorough() {
+							continue
+						}
+					}
 					if variant == 6 || variant == 8 {
 						// the rest of this run looks like variant 0 / 4: only the blocks around
 						// the late check-in, every 3rd point
@@ -1160,6 +1214,9 @@ func TestC08_CrashRecovery(t *testing.T) {
 				}
 				if res.sawSameDesc {
 					labels = append(labels, "two-outbox-rows-with-the-same-description-pending")
+				}
+				if res.crashedBeforeRetry {
+					labels = append(labels, "crash-between-batch-config-and-retried-eon-start(no-config-started)")
 				}
 				if res.crashedMidRange {
 					labels = append(labels, "crash-between-blocks-of-multi-block-range")
